@@ -1084,6 +1084,12 @@ func (c *SpecCtx) evalCall(x *ast.CallExpr) *SV {
 		t := c.resolveType(x.Args[0])
 		a := c.eval(x.Args[1])
 		return &SV{V: scalar(ex.valTerm(a.V)), T: t}
+	case "boxedBytes":
+		// boxedBytes(x): the storage array of the []byte value boxed in the interface value x (meaningful if typeIs(x, []byte))
+		a := c.eval(x.Args[0])
+		bt := types.NewSlice(types.Typ[types.Uint8])
+		f := ex.env.d.Func(symSafe("unbox "+ex.env.typeKey(ex.env.resolve(bt))+" .arr"), SRef, SRef)
+		return &SV{V: scalar(App(f.Name, SRef, ex.valTerm(a.V))), T: types.Typ[types.UnsafePointer]}
 	case "concat":
 		// concat(a, b): concatenation of two strings
 		a, b := c.eval(x.Args[0]), c.eval(x.Args[1])
